@@ -357,6 +357,10 @@ fn note_std_touch(t: u8, what: &str, fd: i32) {
 
 fn note_ebadf(t: u8, what: &str, fd: i32) {
     let s = sim();
+    if s.k.desc_of(PARENT_PID, fd).is_some() && what != "close" {
+        // the descriptor is open: the EBADF was injected, not earned
+        return;
+    }
     if s.k.in_lib[t as usize] || s.threads[t as usize].lib_label.is_some() {
         let label = s.threads[t as usize].lib_label.clone().unwrap_or_default();
         s.k.ebadf.push(format!("{}({}) in {}", what, fd, label));
